@@ -2421,10 +2421,12 @@ func c06RealTLS(p *c06Prober, hit func(verifHit)) {
 		leaf   *x509.Certificate
 		issuer *x509.Certificate
 		key    *ecdsa.PrivateKey
+		from   string // source address of the client socket ("" = 127.0.0.1)
+		inside int    // IP-restricted certificates: 1 = the source address is inside the block, -1 = outside (by the harness's arithmetic)
 	}
 	mk := func(name string, caDer []byte, signer crypto.Signer, issuer *x509.Certificate, cn string, key *verifKeys, ext []pkix.Extension) tc {
 		leaf, _ := verifClientChain(caDer, signer, cn, nb, &key.ec.PublicKey, ext)
-		return tc{name, leaf, issuer, key.ec}
+		return tc{name: name, leaf: leaf, issuer: issuer, key: key.ec}
 	}
 	loop := env127()
 	ipLeaf := func(cn, cidr string) *x509.Certificate {
@@ -2436,15 +2438,35 @@ func c06RealTLS(p *c06Prober, hit func(verifHit)) {
 		mk("km-alice", mainCA, st.Signer, mainCACert, "alice", p.mat.keys, nil),
 		mk("km-admin", mainCA, st.Signer, mainCACert, "admin", p.mat.keys, nil),
 		mk("km-denied-key", mainCA, st.Signer, mainCACert, "alice", p.mat.deniedKeys, nil),
-		{"ip-loopback-block", ipLeaf("svc-automation", "127.0.0.0/8"), roleCACert, p.mat.keys.ec},
-		{"ip-other-block", ipLeaf("svc-automation", "10.0.0.0/8"), roleCACert, p.mat.keys.ec},
+		{name: "ip-loopback-block", leaf: ipLeaf("svc-automation", "127.0.0.0/8"), issuer: roleCACert, key: p.mat.keys.ec, inside: 1},
+		{name: "ip-other-block", leaf: ipLeaf("svc-automation", "10.0.0.0/8"), issuer: roleCACert, key: p.mat.keys.ec, inside: -1},
 		mk("foreign-ca", p.mat.foreignCA.Raw, p.mat.foreignKey, p.mat.foreignCA, "admin", p.mat.keys, nil),
+	}
+	// a netblock that ends inside an octet, over real sockets: the client binds its source address inside the
+	// block, just outside it in the same whole leading octets, and in the neighbouring blocks (any 127/8 address
+	// is local)
+	{
+		part := c06Block{127<<24 | 16<<8, 20} // 127.0.16.0/20 = 127.0.16.0 .. 127.0.31.255
+		leaf := ipLeaf("svc-automation", part.String())
+		for _, from := range []uint32{127<<24 | 17<<8 | 5, 127<<24 | 31<<8 | 255, 127<<24 | 40<<8 | 7, 127<<24 | 32<<8, 127<<24 | 15<<8 | 255, 127<<24 | 1} {
+			in := -1
+			if part.holds(from) {
+				in = 1
+			}
+			certs = append(certs, tc{name: "ip-partial-octet-block-from-" + map[int]string{1: "inside", -1: "outside"}[in], leaf: leaf, issuer: roleCACert, key: p.mat.keys.ec, from: c06V4(from), inside: in})
+		}
 	}
 	type rq struct{ method, path, key string }
 	reqs := []rq{{"GET", usersPath, "runtimeState.usersHandler"}, {"POST", refreshRoleRequestingCertPath, "runtimeState.refreshRoleRequestingCertGenHandler"},
 		{"POST", certgenPath + "svc-automation", "runtimeState.certGenHandler"}, {"GET", "/u2f/SignRequest", "runtimeState.u2fSignRequest"}}
 	for _, c := range certs {
-		client := &http.Client{Transport: &http.Transport{TLSClientConfig: &tls.Config{InsecureSkipVerify: true,
+		dialer := &net.Dialer{Timeout: 5 * time.Second}
+		synthFrom := "127.0.0.1"
+		if c.from != "" {
+			dialer.LocalAddr = &net.TCPAddr{IP: net.ParseIP(c.from)}
+			synthFrom = c.from
+		}
+		client := &http.Client{Transport: &http.Transport{DialContext: dialer.DialContext, TLSClientConfig: &tls.Config{InsecureSkipVerify: true,
 			Certificates: []tls.Certificate{{Certificate: [][]byte{c.leaf.Raw}, PrivateKey: c.key}}}, DisableKeepAlives: true},
 			CheckRedirect: func(*http.Request, []*http.Request) error { return http.ErrUseLastResponse }}
 		for _, q := range reqs {
@@ -2464,7 +2486,7 @@ func c06RealTLS(p *c06Prober, hit func(verifHit)) {
 			_ = route
 			// synthetic
 			sreq := build()
-			withTLS(sreq, [][]*x509.Certificate{{c.leaf, c.issuer}}, "127.0.0.1:4711")
+			withTLS(sreq, [][]*x509.Certificate{{c.leaf, c.issuer}}, synthFrom+":4711")
 			so := p.serve(sreq)
 			// real
 			rreq := build()
@@ -2514,6 +2536,12 @@ func c06RealTLS(p *c06Prober, hit func(verifHit)) {
 					hit(verifHit{Key: "C06:real-tls:foreign-ca", Oracle: "a certificate of an unknown CA presented in a real handshake is let in", What: fmt.Sprintf("%s %s: user %q effects %v", q.method, q.path, ro.user, c06EffNames(ro.effects)), Case: desc})
 				}
 				continue
+			}
+			// the property itself on the real connection: an IP-restricted certificate presented from a socket address
+			// outside its block establishes nothing (these leaves are signed by the role CA: no other credential)
+			if c.inside == -1 && err == nil && (ro.user != "" || ro.effects != 0) {
+				hit(verifHit{Key: "C06:real-tls:ip-certificate-outside-its-block:" + q.key, Oracle: "an IP-restricted certificate presented in a real TLS handshake from a socket address outside its netblock is let in",
+					What: fmt.Sprintf("%s %s with certificate %s (%s) from %s: user %q effects %v status %d", q.method, q.path, c.name, c.leaf.Subject.CommonName, synthFrom, ro.user, c06EffNames(ro.effects), ro.status), Case: desc})
 			}
 			if err != nil || ro.status != so.status || ro.user != so.user || ro.effects != so.effects {
 				hit(verifHit{Key: "C06:real-tls:" + c.name, Oracle: "a real TLS handshake and the harness-built connection state are treated differently",
